@@ -51,7 +51,8 @@ inductive Fault where
   | os (cause : Option Int)   -- OSError, optionally `raise … from Exception('received <code> (…)')`
   | ok1000                    -- Exception('… code = 1000 (OK) …')  (websockets library)
   | subproto                  -- Exception('protocol accepted must be from the list')  (Autobahn)
-  | other                     -- any other exception: not translated
+  | value                     -- a ValueError (or a subclass): not translated; a script that catches the documented errors catches it
+  | other                     -- any other exception (Exception, TypeError, RuntimeError, a server's own class): not translated
 deriving DecidableEq, Repr
 
 structure W where
@@ -65,21 +66,34 @@ structure W where
   sent : List (Ev × Bool) := []     -- every call of `send`, with whether it returned normally
   failAt : Option Nat               -- index of the `send` call that raises
   fault : Fault := .os none
+  /-- the message of the exception the server raises contains 'invalid close code' (any letter case) - Autobahn (under Daphne) refuses
+      close codes other than 1000 / 3000-4999 with a plain `Exception('invalid close code 1011 (must be …)')` -/
+  faultIcc : Bool := false
+  /-- the server's POLICY on close codes: a close event carrying one of these codes is refused (its `send` raises `fault`), whenever it
+      is sent - by the responder, an error handler or the framework itself -/
+  refused : List Int := []
   buffered : Bool := false          -- max_receive_queue > 0
   pumpStopped : Bool := false       -- `_buffered_receiver.stop()` ran after the pump had been started
   inbox : List InEv
 deriving Repr
 
-/-- the server's `send` -/
+/-- the server refuses this event on account of its close-code policy -/
+def W.refuses (w : W) : Ev → Bool
+  | .close c _ => w.refused.contains c
+  | _ => false
+
+/-- the server's `send`: it raises at the faulty call, and for every close event whose code its policy refuses -/
 def W.asgiSend (w : W) (e : Ev) : W × Bool :=
-  let fails := w.failAt == some w.sent.length
+  let fails := w.failAt == some w.sent.length || w.refuses e
   ({ w with sent := w.sent ++ [(e, !fails)] }, !fails)
 
 def W.isClosed (w : W) (disc : Option Int) : Bool := w.st == .closed || disc.isSome
 
 /-- the raw exception of the faulty `send` as seen by a caller that does not translate it (`close()`) -/
-def Fault.raw : Fault → Exc
+def Fault.raw (f : Fault) (icc : Bool) : Exc :=
+  match f with
   | .os _ => .osErr
+  | .value => if icc then .invalidCloseCode else .valueOther     -- (`Exc` names a ValueError by what its message says)
   | _ => .pyErr
 
 /-- `WebSocket._send` -/
@@ -94,6 +108,7 @@ def W.send_ (w : W) (disc : Option Int) (e : Ev) : W × Option Exc :=
     | .os cause => ({ w with st := .closed, closeCode := some (wsdCode cause) }, some (wsd cause))
     | .ok1000 => ({ w with st := .closed, closeCode := some 1000 }, some (wsd (some 1000)))
     | .subproto => ({ w with st := .closed }, some .valueOther)
+    | .value => (w, some (Fault.raw .value w.faultIcc))
     | .other => (w, some .pyErr)
 
 def W.requireAccepted (w : W) : Option Exc :=
@@ -140,7 +155,7 @@ where
       (if w.st == .closed then w else { w with st := .closed, closeCode := disc }, none)
     else
     let (w, ok) := w.asgiSend (.close code ((reason || w.reasonCodes.contains code) && w.supReason))
-    if ok then ({ w with st := .closed, closeCode := some code }, none) else (w, some w.fault.raw)
+    if ok then ({ w with st := .closed, closeCode := some code }, none) else (w, some (w.fault.raw w.faultIcc))
 
 def W.sendMsg (w : W) (disc : Option Int) (k : Kind) : W × Option Exc :=
   match w.requireAccepted with
@@ -237,12 +252,17 @@ def runScript (w : W) : List Step → List (Option Exc) → W × List (Option Ex
     | (w, none) => runScript w rest (log ++ [none])
     | (w, some e) => if catches.catches e then runScript w rest (log ++ [some e]) else (w, log ++ [some e], some e)
 
+/-- `'invalid close code' in str(ex).lower()` for the exception `ex = e` that `close()` raised going from `w` to `w1`: `ex` is falcon's
+    own ValueError for a reserved code (nothing was handed to the server), or - `close()` raises after its `send` only if that `send`
+    raised - the SERVER's exception, of whatever class (`except Exception`), whose message says so (`faultIcc`) -/
+def closeSaysInvalidCode (w w1 : W) (e : Exc) : Bool :=
+  e == .invalidCloseCode || (w1.sent.length != w.sent.length && w.faultIcc)
+
 /-- `_ws_cleanup_on_error`; `fd` = the flag value frozen by the `stop()` of the first `close()` after the responder -/
 def cleanup (w : W) (fd : Option Int) : W × Option Exc :=
   match w.close fd (.int w.errCloseCode) false with
-  | (w, none) => (w, none)
-  | (w, some .invalidCloseCode) => w.close fd (.int 3011) false
-  | (w, some e) => (w, some e)
+  | (w1, none) => (w1, none)
+  | (w1, some e) => if closeSaysInvalidCode w w1 e then w1.close fd (.int 3011) false else (w1, some e)
 
 /-- what the application configured -/
 structure Cfg where
